@@ -8,7 +8,11 @@ from ..core.symexec import run_paths, calls_on
 
 def evaluator(ctx, fn, env, this_names=("this",)):
     mod = getattr(fn, "_module", None)
-    return Evaluator(env=env, const_of=ctx.folder.const_of(mod) if mod else None, this_names=this_names)
+    e = Evaluator(env=env, const_of=ctx.folder.const_of(mod) if mod else None, this_names=this_names)
+    par = getattr(fn, "_parent", None)
+    if isinstance(par, ast.ClassDef) and any(isinstance(d, ast.Name) and d.id == "classmethod" for d in getattr(fn, "decorator_list", [])):
+        e.owner = par.name
+    return e
 
 
 def call_dotted(call):
